@@ -17,7 +17,18 @@ Qed.
 Section Main.
   Variable ms : list move.
   Variable free : list reg.
-  Hypothesis WF : wf ms free.
+  Variable c : cfg.
+  Variable ck : value -> Z.
+  Variable wl : value -> reg -> option Z.
+  Variable ch0 : Z -> Z.
+  Hypothesis WF : wf_all ms free.
+  Hypothesis Hkey : forall a b, In a ms -> In b ms ->
+    (ck (m_value a) = ck (m_value b) <-> m_src a = m_src b).
+  Hypothesis Hw : forall m, In m ms -> trivb m = false -> wl (m_value m) (m_dst m) = Some (m_w m).
+  Hypothesis Hch0 : forall k,
+    ch0 k = Z.of_nat (length (filter (fun m => negb (trivb m) && (ck (m_value m) =? k)) ms)).
+  Hypothesis Hrf : root_free c = false.
+  Hypothesis Hxo : xor_old c = false.
 
   Notation P := (src_by_dst (loop1 ms)).
   Notation oidx := (output_index ms).
@@ -25,7 +36,7 @@ Section Main.
   Notation par := (par ms).
   Notation fi := (filter (fun r => negb (is_float r)) free).
   Notation ff := (filter is_float free).
-  Let ND : NoDup (map m_dst ms) := wf_dsts _ _ WF.
+  Let ND : NoDup (map m_dst ms) := wa_dsts _ _ WF.
 
   Lemma free_of_head d temp rest : free_of fi ff d = temp :: rest ->
     In temp free /\ is_float temp = is_float d.
@@ -50,12 +61,12 @@ Section Main.
     destruct C as [Px C].
     assert (Ky : is_float y = is_float x).
     { destruct (par_move ms free WF _ _ Px) as (m & Im & _ & Dm & Sm & _).
-      rewrite <- Dm, <- Sm. apply (wf_kinds _ _ WF m Im). }
+      rewrite <- Dm, <- Sm. apply (wa_kinds _ _ WF m Im). }
     destruct Iz as [<-|Iz]; [assumption|]. rewrite (IH y C z Iz). exact Ky.
   Qed.
 
   Lemma loop3_step_spec s k m : Inv3 ms free s -> nth_error ms k = Some m ->
-    match loop3_step repaired ms fi ff (Ok s) (k, m) with
+    match loop3_step c wl ms (loop1 ms) fi ff (Ok s) (k, m) with
     | Ok s' => Inv3 ms free s' /\ doneb (results s') (m_dst m) = true
                /\ (forall r, doneb (results s) r = true -> doneb (results s') r = true)
                /\ (forall r, is_float r <> is_float (m_dst m) -> doneb (results s') r = doneb (results s) r)
@@ -105,7 +116,7 @@ Section Main.
         * (* integer cycle rotated by xor swaps *)
           simpl vreg.
           assert (Ps : P (m_src m) <> None) by (apply HCp; now left).
-          destruct (P (m_src m)) as [inp|] eqn:Ei; [|congruence]. cbn [key bind xor_old repaired].
+          destruct (P (m_src m)) as [inp|] eqn:Ei; [|congruence]. cbn [key bind]. rewrite Hxo.
           assert (Pl : par (last l (m_src m)) = Some (m_src m)) by (rewrite La; apply Ch).
           assert (Ns : ~ In (m_src m) l) by (now inversion NDc).
           destruct (xor_chain_spec ms free WF l (m_src m) (loop_fuel ms) (m_src m) (em s) (results s) inp (m_value m)
@@ -142,15 +153,15 @@ Section Main.
       + (* the cycle is broken through the free register temp *)
         destruct (free_of_head _ _ _ Fo) as [Itemp Ktemp].
         assert (Ksrc : is_float (vreg (m_value m)) = is_float temp).
-        { simpl. rewrite Ktemp. apply (wf_kinds _ _ WF m Im). }
-        destruct (insert_mv_res (em s) (m_value m) temp (m_w m) Ksrc) as [(e1 & tv & Hins)|[Hins Hw]].
+        { simpl. rewrite Ktemp. apply (wa_kinds _ _ WF m Im). }
+        destruct (insert_mv_res (em s) (m_value m) temp (m_w m) Ksrc) as [(e1 & tv & Hins)|[Hins Hbw]].
         2:{ rewrite Hins. cbn [bind]. split; [reflexivity|]. right. left. exists m.
             split; [assumption|]. split; [now apply trivb_false|assumption]. }
         rewrite Hins. cbn [bind].
         destruct (insert_mv_Ok _ _ _ _ _ _ Hins Ksrc) as (Okw & -> & it & -> & _ & Hit).
-        pose proof (break_chain_spec ms free WF l (m_src m) (loop_fuel ms) (em s ++ [it]) (results s)
+        pose proof (break_chain_spec ms free wl WF Hw l (m_src m) (loop_fuel ms) (em s ++ [it]) (results s)
                       (proj2 Ch) NDc Kl Fu) as B. rewrite La in B.
-        destruct (break_chain ms (loop_fuel ms) (m_dst m) (em s ++ [it]) (results s) (m_src m))
+        destruct (break_chain wl ms (loop1 ms) (loop_fuel ms) (m_dst m) (em s ++ [it]) (results s) (m_src m))
           as [[e2 rs2]|e0|]; cbn [bind].
         2:{ destruct B as [-> (mb & Imb & Tmb & Wmb)]. split; [reflexivity|]. right. left. exists mb.
             split; [assumption|]. split; [now apply trivb_false|assumption]. }
@@ -158,7 +169,7 @@ Section Main.
         destruct B as (mvs & -> & Len2 & Dn1 & Dn2 & Sl & Sem).
         assert (Kfin : is_float (vreg (new_value (em s) temp)) = is_float (m_dst m)) by (simpl; assumption).
         destruct (insert_mv_res ((em s ++ [it]) ++ mvs) (new_value (em s) temp) (m_dst m) (m_w m) Kfin)
-          as [(e3 & nv & Hfin)|[_ Hw]]; [|congruence].
+          as [(e3 & nv & Hfin)|[_ Hbw]]; [|congruence].
         rewrite Hfin. cbn [bind].
         destruct (insert_mv_Ok _ _ _ _ _ _ Hfin Kfin) as (_ & -> & ifin & -> & _ & Hifin).
         assert (Kr : (k < length rs2)%nat) by lia.
@@ -173,11 +184,11 @@ Section Main.
         { intros r Nr. rewrite DB. destruct (Z.eqb_spec r (m_dst m)) as [->|].
           - exfalso. apply Nr. rewrite <- La. apply last_in.
           - apply Dn2. intros Ir. apply Nr. now apply removelast_incl. }
-        assert (NZt : temp <> ZERO) by (intros ->; now apply (wf_free_zero _ _ WF)).
+        assert (NZt : temp <> ZERO) by (intros ->; now apply (wa_free_zero _ _ WF)).
         assert (Tc : ~ In temp (m_src m :: l)).
         { intros Ic. specialize (HCp temp Ic). destruct (P temp) as [pv|] eqn:Et; [|congruence].
           destruct (P_inv ms free WF _ _ Et) as (mt & Imt & _ & Dmt & _).
-          destruct (wf_free _ _ WF temp mt Itemp Imt) as [_ N]. congruence. }
+          destruct (wa_free _ _ WF temp mt Itemp Imt) as [_ N]. congruence. }
         assert (Trl : ~ In temp (removelast (m_src m :: l))) by (intros I; apply Tc; now apply removelast_incl).
         assert (Drl : ~ In (m_dst m) (removelast (m_src m :: l))).
         { rewrite <- La. clear -NDc. revert NDc. generalize (m_src m). induction l as [|y l IH]; intros x NDc; [intros []|].
@@ -208,7 +219,7 @@ Section Main.
                 ** rewrite get_set_other by (intros Ed; apply Drl; now rewrite <- Ed).
                    rewrite (F2 mx Imx Tmx E). rewrite copyf_idem. f_equal.
                    unfold rho2. apply get_set_other.
-                   destruct (wf_free _ _ WF temp mx Itemp Imx) as [N _]. congruence.
+                   destruct (wa_free _ _ WF temp mx Itemp Imx) as [N _]. congruence.
         * apply Dall. rewrite <- La. apply last_in.
         * split.
           -- intros r Hr. destruct (in_dec Z.eq_dec r (m_src m :: l)) as [Ic|Ic]; [now apply Dall|].
@@ -233,7 +244,7 @@ Section Main.
   Lemma loop3_spec : forall l pre s,
     ms = pre ++ l -> Inv3 ms free s ->
     (forall m, In m pre -> doneb (results s) (m_dst m) = true) ->
-    match fold_left (loop3_step repaired ms fi ff) (combine (seq (length pre) (length l)) l) (Ok s) with
+    match fold_left (loop3_step c wl ms (loop1 ms) fi ff) (combine (seq (length pre) (length l)) l) (Ok s) with
     | Ok s' => Inv3 ms free s' /\ (forall m, In m ms -> doneb (results s') (m_dst m) = true)
     | Raise e => e = EPassFailed /\ fail_cause ms free
     | OutOfFuel => False
@@ -245,7 +256,7 @@ Section Main.
       assert (Hk : nth_error ms (length pre) = Some m).
       { rewrite E, nth_error_app2 by lia. now rewrite Nat.sub_diag. }
       pose proof (loop3_step_spec s (length pre) m K Hk) as St.
-      destruct (loop3_step repaired ms fi ff (Ok s) (length pre, m)) as [s1|e|].
+      destruct (loop3_step c wl ms (loop1 ms) fi ff (Ok s) (length pre, m)) as [s1|e|].
       + destruct St as (K1 & D1 & Mo & _).
         specialize (IH (pre ++ [m]) s1). rewrite app_length in IH. simpl in IH.
         replace (length pre + 1)%nat with (S (length pre)) in IH by lia.
@@ -262,31 +273,41 @@ Section Main.
     - destruct (IH H) as (x & I & F). exists x. auto.
   Qed.
 
-  (* ---- the repaired algorithm on the inputs described by `wf` ---- *)
-  Lemma rewrite_repaired_spec :
-    match rewrite repaired ms free with
+  (* ---- the rewrite with the first-loop tables of `loop1`, counter key ck, width lookup wl ---- *)
+  Definition rewrite_gen : res (list instr * list value) :=
+    if negb (forallb (fun m => is_alloc (m_src m) && is_alloc (m_dst m)) ms) then Raise EPassFailed else
+    let t := loop1 ms in
+    let s0 := mkS [] (results0 t) ch0 in
+    do '(s2, f1, f2) <- fold_left (loop2_step c ck wl ms t (leaves t)) (map m_dst ms) (Ok (s0, fi, ff));
+    do s3 <- fold_left (loop3_step c wl ms t f1 f2) (combine (seq 0 (length ms)) ms) (Ok s2);
+    if forallb (fun o => match o with Some _ => true | None => false end) (results s3)
+    then Ok (em s3, flat_map (fun o => match o with Some v => [v] | None => [] end) (results s3))
+    else Raise EValueError.
+
+  Lemma rewrite_gen_spec :
+    match rewrite_gen with
     | Ok (is, _) => simultaneous ms is /\ frame ms free is
     | Raise e => e = EPassFailed /\ fail_cause ms free
     | OutOfFuel => False
     end.
   Proof.
-    unfold rewrite.
+    unfold rewrite_gen.
     destruct (forallb (fun m => is_alloc (m_src m) && is_alloc (m_dst m)) ms) eqn:Al; cbn [negb].
     2:{ split; [reflexivity|]. left. destruct (forallb_false_ex _ _ Al) as (m & Im & F).
         exists m. split; [assumption|]. apply andb_false_iff in F. exact F. }
-    pose proof (loop2_spec ms free WF repaired (map m_dst ms) [] _ fi ff (inv2_0 ms free WF)) as L2.
+    pose proof (loop2_spec ms free ck wl WF Hkey Hw c (map m_dst ms) [] _ fi ff (inv2_0 ms free ck ch0 WF Hch0)) as L2.
     simpl app in L2. specialize (L2 ND).
-    destruct (fold_left (loop2_step repaired ms (leaves (loop1 ms))) (map m_dst ms)
+    destruct (fold_left (loop2_step c ck wl ms (loop1 ms) (leaves (loop1 ms))) (map m_dst ms)
                 (Ok (mkS [] (results0 (loop1 ms)) (children0 (loop1 ms)), fi, ff))) as [[[s2 fi'] ff']|e|];
       cbn [bind].
     2:{ destruct L2 as [-> (m & Im & Tm & Wm)]. split; [reflexivity|]. right. left. exists m.
         split; [assumption|]. split; [now apply trivb_false|assumption]. }
     2:{ destruct L2. }
-    destruct L2 as (J2 & Hfree & _). destruct (Hfree eq_refl) as [-> ->].
-    pose proof (inv3_of_inv2 ms free WF s2 J2) as K2.
+    destruct L2 as (J2 & Hfree & _). destruct (Hfree Hrf) as [-> ->].
+    pose proof (inv3_of_inv2 ms free ck WF Hkey s2 J2) as K2.
     pose proof (loop3_spec ms [] s2 eq_refl K2 (fun m (I : In m []) => match I with end)) as L3.
     simpl length in L3.
-    destruct (fold_left (loop3_step repaired ms fi ff) (combine (seq 0 (length ms)) ms) (Ok s2)) as [s3|e|];
+    destruct (fold_left (loop3_step c wl ms (loop1 ms) fi ff) (combine (seq 0 (length ms)) ms) (Ok s2)) as [s3|e|];
       cbn [bind]; [|exact L3|exact L3].
     destruct L3 as [K3 Dall].
     assert (All : forallb (fun o : option value => match o with Some _ => true | None => false end) (results s3) = true).
@@ -306,7 +327,7 @@ Section Main.
         * left. apply Pnone. intros m' Im' Tm' Dm'.
           assert (m' = m) by (apply (dst_inj ms free WF); auto; congruence). subst m'.
           unfold trivb in Tm'. apply Z.eqb_neq in Tm'. contradiction.
-        * intros If. destruct (wf_free _ _ WF _ m If Im) as [N _]. congruence.
+        * intros If. destruct (wa_free _ _ WF _ m If Im) as [N _]. congruence.
       + now apply S1, Dall.
     - intros rho r Nd Nf. destruct (K_sem ms free s3 K3 rho) as [_ S2]. apply S2; [|assumption].
       left. apply Pnone. intros m Im _ E. apply Nd. rewrite <- E. now apply in_map.
@@ -316,7 +337,7 @@ Section Main.
   Lemma loop3_float_stuck : forall l pre s,
     ms = pre ++ l -> Inv3 ms free s -> ff = [] ->
     (exists m, In m l /\ trivb m = false /\ is_float (m_dst m) = true /\ doneb (results s) (m_dst m) = false) ->
-    match fold_left (loop3_step repaired ms fi ff) (combine (seq (length pre) (length l)) l) (Ok s) with
+    match fold_left (loop3_step c wl ms (loop1 ms) fi ff) (combine (seq (length pre) (length l)) l) (Ok s) with
     | Ok _ => False
     | Raise e => e = EPassFailed
     | OutOfFuel => False
@@ -330,13 +351,13 @@ Section Main.
     pose proof (output_index_of ms _ m0 ND Hk) as Oidx.
     (* a float move whose slot is empty raises *)
     assert (Stuck : forall mm, mm = m0 -> is_float (m_dst mm) = true -> doneb (results s) (m_dst mm) = false ->
-              loop3_step repaired ms fi ff (Ok s) (length pre, m0) = Raise EPassFailed).
+              loop3_step c wl ms (loop1 ms) fi ff (Ok s) (length pre, m0) = Raise EPassFailed).
     { intros mm -> Fl Dn. unfold loop3_step. cbn [bind].
       rewrite (doneb_false_slot ms free WF (results s) (m_dst m0) (length pre) (K_len ms free s K) Oidx Dn).
       unfold free_of. rewrite Fl, Hff. reflexivity. }
     destruct Im as [<-|Im].
     - rewrite (Stuck m0 eq_refl Fm Dm). now rewrite loop3_fold_raise.
-    - destruct (loop3_step repaired ms fi ff (Ok s) (length pre, m0)) as [s1|e|] eqn:Est.
+    - destruct (loop3_step c wl ms (loop1 ms) fi ff (Ok s) (length pre, m0)) as [s1|e|] eqn:Est.
       + destruct St as (K1 & D1 & Mo & Kd).
         specialize (IH (pre ++ [m0]) s1). rewrite app_length in IH. simpl in IH.
         replace (length pre + 1)%nat with (S (length pre)) in IH by lia.
@@ -354,24 +375,24 @@ Section Main.
       + destruct St.
   Qed.
 
-  Lemma rewrite_repaired_fails :
+  Lemma rewrite_gen_fails :
     (exists m, In m ms /\ (is_alloc (m_src m) = false \/ is_alloc (m_dst m) = false))
     \/ (exists d, on_cycle ms d /\ is_float d = true /\ forall f, In f free -> is_float f = false) ->
-    rewrite repaired ms free = Raise EPassFailed.
+    rewrite_gen = Raise EPassFailed.
   Proof.
-    intros H. unfold rewrite.
+    intros H. unfold rewrite_gen.
     destruct (forallb (fun m => is_alloc (m_src m) && is_alloc (m_dst m)) ms) eqn:Al; cbn [negb]; [|reflexivity].
     destruct H as [(m & Im & Hm)|(d & Cd & Fd & Hf)].
     { exfalso. rewrite forallb_forall in Al. specialize (Al m Im). apply andb_true_iff in Al. destruct Hm; intuition congruence. }
-    pose proof (loop2_spec ms free WF repaired (map m_dst ms) [] _ fi ff (inv2_0 ms free WF)) as L2.
+    pose proof (loop2_spec ms free ck wl WF Hkey Hw c (map m_dst ms) [] _ fi ff (inv2_0 ms free ck ch0 WF Hch0)) as L2.
     simpl app in L2. specialize (L2 ND).
-    destruct (fold_left (loop2_step repaired ms (leaves (loop1 ms))) (map m_dst ms)
+    destruct (fold_left (loop2_step c ck wl ms (loop1 ms) (leaves (loop1 ms))) (map m_dst ms)
                 (Ok (mkS [] (results0 (loop1 ms)) (children0 (loop1 ms)), fi, ff))) as [[[s2 fi'] ff']|e|];
       cbn [bind].
     2:{ destruct L2 as [-> _]. reflexivity. }
     2:{ destruct L2. }
-    destruct L2 as (J2 & Hfree & _). destruct (Hfree eq_refl) as [-> ->].
-    pose proof (inv3_of_inv2 ms free WF s2 J2) as K2.
+    destruct L2 as (J2 & Hfree & _). destruct (Hfree Hrf) as [-> ->].
+    pose proof (inv3_of_inv2 ms free ck WF Hkey s2 J2) as K2.
     assert (Hff : ff = []).
     { destruct ff as [|f r] eqn:Eff; [reflexivity|]. exfalso.
       assert (I : In f ff) by (rewrite Eff; now left). apply filter_In in I as [I1 I2].
@@ -385,9 +406,9 @@ Section Main.
     destruct Hd as (m & Im & Tm & Dm).
     assert (Dd : doneb (results s2) (m_dst m) = false).
     { destruct (doneb (results s2) (m_dst m)) eqn:D; [|reflexivity]. exfalso.
-      apply (I_nocyc ms s2 (J_inv ms s2 _ J2) m Im Tm D). now rewrite Dm. }
+      apply (I_nocyc ms ck s2 (J_inv ms ck s2 _ J2) m Im Tm D). now rewrite Dm. }
     pose proof (loop3_float_stuck ms [] s2 eq_refl K2 Hff) as L3. simpl length in L3.
-    destruct (fold_left (loop3_step repaired ms fi ff) (combine (seq 0 (length ms)) ms) (Ok s2)) as [s3|e|];
+    destruct (fold_left (loop3_step c wl ms (loop1 ms) fi ff) (combine (seq 0 (length ms)) ms) (Ok s2)) as [s3|e|];
       cbn [bind].
     - exfalso. apply L3. exists m. repeat split; auto. now rewrite Dm.
     - rewrite L3; [reflexivity|]. exists m. repeat split; auto. now rewrite Dm.
@@ -403,7 +424,7 @@ Section Main.
   Lemma wf_verify : verify ms = true.
   Proof.
     unfold verify. apply andb_true_iff. split.
-    - apply forallb_forall. intros m Im. rewrite (wf_kinds _ _ WF m Im). apply eqb_reflx.
+    - apply forallb_forall. intros m Im. rewrite (wa_kinds _ _ WF m Im). apply eqb_reflx.
     - apply nodupb_NoDup. apply NoDup_filter. exact ND.
   Qed.
 End Main.
@@ -453,17 +474,28 @@ Definition every_cycle_has_free (ms : list move) (free : list reg) : Prop :=
 Section Partial.
   Variable ms : list move.
   Variable free : list reg.
-  Hypothesis WF : wf ms free.
+  Variable c cu : cfg.
+  Variable ck : value -> Z.
+  Variable wl : value -> reg -> option Z.
+  Variable ch0 : Z -> Z.
+  Hypothesis WF : wf_all ms free.
+  Hypothesis Hkey : forall a b, In a ms -> In b ms ->
+    (ck (m_value a) = ck (m_value b) <-> m_src a = m_src b).
+  Hypothesis Hw : forall m, In m ms -> trivb m = false -> wl (m_value m) (m_dst m) = Some (m_w m).
+  Hypothesis Hch0 : forall k,
+    ch0 k = Z.of_nat (length (filter (fun m => negb (trivb m) && (ck (m_value m) =? k)) ms)).
+  Hypothesis Hrf : root_free c = false.
+  Hypothesis Hxo : xor_old c = false.
   Hypothesis HP : every_cycle_has_free ms free.
 
   Notation P := (src_by_dst (loop1 ms)).
   Notation doneb := (doneb ms).
   Notation fi := (filter (fun r => negb (is_float r)) free).
   Notation ff := (filter is_float free).
-  Let ND : NoDup (map m_dst ms) := wf_dsts _ _ WF.
+  Let ND : NoDup (map m_dst ms) := wa_dsts _ _ WF.
 
   Lemma loop3_step_agree s k m xi xf : Inv3 ms free s -> nth_error ms k = Some m ->
-    loop3_step unchanged ms (fi ++ xi) (ff ++ xf) (Ok s) (k, m) = loop3_step repaired ms fi ff (Ok s) (k, m).
+    loop3_step cu wl ms (loop1 ms) (fi ++ xi) (ff ++ xf) (Ok s) (k, m) = loop3_step c wl ms (loop1 ms) fi ff (Ok s) (k, m).
   Proof.
     intros K Hk. unfold loop3_step. cbn [bind].
     destruct (nth_error (results s) k) as [[v|]|] eqn:Ek; try reflexivity.
@@ -484,16 +516,16 @@ Section Partial.
 
   Lemma loop3_agree xi xf : forall l pre s,
     ms = pre ++ l -> Inv3 ms free s ->
-    fold_left (loop3_step unchanged ms (fi ++ xi) (ff ++ xf)) (combine (seq (length pre) (length l)) l) (Ok s)
-    = fold_left (loop3_step repaired ms fi ff) (combine (seq (length pre) (length l)) l) (Ok s).
+    fold_left (loop3_step cu wl ms (loop1 ms) (fi ++ xi) (ff ++ xf)) (combine (seq (length pre) (length l)) l) (Ok s)
+    = fold_left (loop3_step c wl ms (loop1 ms) fi ff) (combine (seq (length pre) (length l)) l) (Ok s).
   Proof.
     induction l as [|m l IH]; intros pre s E K; [reflexivity|].
     cbn [length seq combine fold_left].
     assert (Hk : nth_error ms (length pre) = Some m).
     { rewrite E, nth_error_app2 by lia. now rewrite Nat.sub_diag. }
     rewrite (loop3_step_agree s (length pre) m xi xf K Hk).
-    pose proof (loop3_step_spec ms free WF s (length pre) m K Hk) as St.
-    destruct (loop3_step repaired ms fi ff (Ok s) (length pre, m)) as [s1|e|].
+    pose proof (loop3_step_spec ms free c ck wl WF Hkey Hw Hxo s (length pre) m K Hk) as St.
+    destruct (loop3_step c wl ms (loop1 ms) fi ff (Ok s) (length pre, m)) as [s1|e|].
     - destruct St as (K1 & _ & _ & _).
       specialize (IH (pre ++ [m]) s1). rewrite app_length in IH. simpl in IH.
       replace (length pre + 1)%nat with (S (length pre)) in IH by lia.
@@ -502,29 +534,27 @@ Section Partial.
     - now rewrite !loop3_fold_fuel.
   Qed.
 
-  Lemma rewrite_agree : rewrite unchanged ms free = rewrite repaired ms free.
+  Lemma rewrite_agree : rewrite_gen ms free cu ck wl ch0 = rewrite_gen ms free c ck wl ch0.
   Proof.
-    unfold rewrite.
+    unfold rewrite_gen.
     destruct (negb (forallb (fun m => is_alloc (m_src m) && is_alloc (m_dst m)) ms)); [reflexivity|].
-    set (s0 := mkS [] (results0 (loop1 ms)) (children0 (loop1 ms))).
-    pose proof (loop2_core ms unchanged (map m_dst ms) s0 fi ff fi ff) as Co.
-    pose proof (loop2_spec ms free WF unchanged (map m_dst ms) [] s0 fi ff (inv2_0 ms free WF)) as Lu.
-    pose proof (loop2_spec ms free WF repaired (map m_dst ms) [] s0 fi ff (inv2_0 ms free WF)) as Lr.
+    set (s0 := mkS [] (results0 (loop1 ms)) ch0).
+    pose proof (loop2_core ms ck wl cu (map m_dst ms) s0 fi ff fi ff) as Co.
+    pose proof (loop2_spec ms free ck wl WF Hkey Hw cu (map m_dst ms) [] s0 fi ff (inv2_0 ms free ck ch0 WF Hch0)) as Lu.
+    pose proof (loop2_spec ms free ck wl WF Hkey Hw c (map m_dst ms) [] s0 fi ff (inv2_0 ms free ck ch0 WF Hch0)) as Lr.
     simpl app in Lu, Lr. specialize (Lu ND). specialize (Lr ND).
-    destruct (fold_left (loop2_step unchanged ms (leaves (loop1 ms))) (map m_dst ms) (Ok (s0, fi, ff)))
+    destruct (fold_left (loop2_step cu ck wl ms (loop1 ms) (leaves (loop1 ms))) (map m_dst ms) (Ok (s0, fi, ff)))
       as [[[su fiu] ffu]|eu|];
-    destruct (fold_left (loop2_step repaired ms (leaves (loop1 ms))) (map m_dst ms) (Ok (s0, fi, ff)))
+    destruct (fold_left (loop2_step c ck wl ms (loop1 ms) (leaves (loop1 ms))) (map m_dst ms) (Ok (s0, fi, ff)))
       as [[[sr fir] ffr]|er|]; simpl in Co; try discriminate; try (destruct Lu; fail); try (destruct Lr; fail).
     - inversion Co; subst sr. cbn [bind].
       destruct Lu as (_ & _ & (xi & xf & -> & ->)). destruct Lr as (J2 & Hfree & _).
-      destruct (Hfree eq_refl) as [-> ->].
-      pose proof (loop3_agree xi xf ms [] su eq_refl (inv3_of_inv2 ms free WF su J2)) as A3.
+      destruct (Hfree Hrf) as [-> ->].
+      pose proof (loop3_agree xi xf ms [] su eq_refl (inv3_of_inv2 ms free ck WF Hkey su J2)) as A3.
       simpl length in A3. now rewrite A3.
     - inversion Co. reflexivity.
   Qed.
 
-  Lemma lower_agree : lower unchanged ms free = lower repaired ms free.
-  Proof. unfold lower. now rewrite rewrite_agree. Qed.
 End Partial.
 
 (* ================================================================== the pinned tree: theorems *)
